@@ -70,3 +70,54 @@ Proof.
   specialize (H (n, k) Hin). unfold dp_row_ok in H. cbn [fst snd] in H.
   destruct (lookup_name cpp n) as [k'|]; [|discriminate]. eauto.
 Qed.
+
+(* ---------- which option values the command lines leave out ---------- *)
+(* The commands walk over the argparse namespace and skip some values with a Python condition
+   (regenerated as a [cond] in gen/Options.v). Values and Python's == / is between them: *)
+From Coq Require Import QArith.
+Inductive pyval := PNone | PBool (b : bool) | PNum (q : Q) | PStr (s : list N).
+
+Definition num_of (v : pyval) : option Q :=
+  match v with PBool b => Some (if b then 1 else 0)%Q | PNum q => Some q | _ => None end.
+
+(* ==  (bool is a subclass of int: False == 0, True == 1) *)
+Definition py_eq (a b : pyval) : bool :=
+  match a, b with
+  | PNone, PNone => true
+  | PStr s, PStr t => name_eqb s t
+  | _, _ => match num_of a, num_of b with Some x, Some y => Qeq_bool x y | _, _ => false end
+  end.
+
+(* is, for the singletons None, True, False *)
+Definition py_is (a b : pyval) : bool :=
+  match a, b with
+  | PNone, PNone => true
+  | PBool x, PBool y => Bool.eqb x y
+  | _, _ => false
+  end.
+
+Inductive cond :=
+| CIn (l : list pyval) | CEq (c : pyval) | CNe (c : pyval) | CIs (c : pyval) | CIsNot (c : pyval)
+| CAnd (a b : cond) | COr (a b : cond) | CNot (a : cond).
+
+Fixpoint eval_cond (c : cond) (v : pyval) : bool :=
+  match c with
+  | CIn l => existsb (py_eq v) l
+  | CEq c => py_eq v c
+  | CNe c => negb (py_eq v c)
+  | CIs c => py_is v c
+  | CIsNot c => negb (py_is v c)
+  | CAnd a b => eval_cond a v && eval_cond b v
+  | COr a b => eval_cond a v || eval_cond b v
+  | CNot a => negb (eval_cond a v)
+  end.
+
+(* decides goals "eval_cond <generated condition> v = true <-> v = ..." by cases on the value *)
+Ltac skip_cases v :=
+  destruct v as [| [|] | ?q | ?s]; cbn -[Qeq_bool];
+  repeat match goal with |- context [Qeq_bool ?a ?b] => destruct (Qeq_bool a b) end;
+  cbn; intros ?H; try discriminate; auto.
+
+(* the defect repaired by ad98cf9: "v in (None, False)" also skips the number 0 *)
+Example in_none_false_skips_zero : eval_cond (CIn [PNone; PBool false]) (PNum 0) = true.
+Proof. reflexivity. Qed.
